@@ -236,7 +236,7 @@ fn c07_raw() -> impl Strategy<Value = Case> {
             opts: [o0, OptsSpec::default()],
             rng: [ids, vec![]],
             streams,
-            raw: Some(RawPolicy { reject_first: k, ack_connects: Some(3), ack_every: Some(1), answer_close: true }),
+            raw: Some(RawPolicy { reject_first: k, ack_connects: Some(3), ack_every: Some(1), answer_close: true, no_ack_streams: vec![] }),
             events,
             schedule,
             ..Case::default()
@@ -571,7 +571,7 @@ fn c06_raw_case() -> impl Strategy<Value = Case> {
         Case {
             opts: [o0, OptsSpec::default()],
             streams: vec![StreamSpec { side: 1, port: 5, pad: vec![], delay: 0, park: None, ends: [EndScript::default(), EndScript { w, r }] }],
-            raw: Some(RawPolicy { reject_first: 0, ack_connects: None, ack_every: Some(1), answer_close: true }),
+            raw: Some(RawPolicy { reject_first: 0, ack_connects: None, ack_every: Some(1), answer_close: true, no_ack_streams: vec![] }),
             events,
             schedule,
             ..Case::default()
